@@ -423,6 +423,12 @@ func runC13(c *fw.Case) (o fw.Outcome) {
 	if o.Failed() {
 		return
 	}
+	if err == nil && enc != nil {
+		if m := retainCheck("builder-output", enc, sp.name); m != "" {
+			o.Fail("retained-encoding-changed", "%s", m)
+			return
+		}
+	}
 	o.Count("builder_calls", 1)
 	if a.badArg != "" {
 		o.Count("out_of_range_calls", 1)
